@@ -11,7 +11,9 @@ NumPy's own result is a parameter (`NpRes`).
 
 NOT theorems (established by the oracle on the enumerated zoo only): that the numbers in the
 wrapped result, or written into a given `out`, equal NumPy's numbers; that operands are left
-untouched.  `C17.ufunc_out_identity_*` prove that the returned OBJECT is the given one, not
+untouched — EXCEPT for the legacy interface of product spaces (ROUND 4, last section: value and
+buffer model `Model/UfuncValue.lean` of `ProductSpaceUfuncs`, NumPy's scalar arithmetic a
+parameter).  `C17.ufunc_out_identity_*` prove that the returned OBJECT is the given one, not
 what it holds.
 
 Not modelled at all: `Tensor.__array_ufunc__` of `base_tensors.py` (unreachable through the
@@ -23,6 +25,7 @@ The legacy tables and NumPy's `can_cast` table (`Gen/UfuncLegacy.lean`) are GENE
 -/
 import OdlModel.Model.Ufunc
 import OdlModel.Gen.UfuncLegacy
+import OdlModel.Lemmas.UfuncValue
 
 namespace OdlModel.C17
 open OdlModel.Ufunc
@@ -1032,3 +1035,148 @@ example : discrDispatch ⟨[⟨0, 1, 2, .uniform (1/2)⟩], .float32, .array .fl
          .wrapD [2] .int32 Weighting.default [⟨0, 1, 2, .uniform (1/2)⟩]] ∧
     powerLegacy ⟨[2, 3], .int64⟩ .twoOut [.own, .none] (.ok [.arr [2, 3] .float64, .arr [2, 3] .int32]) =
       .ok [.given 0, .wrapP [2, 3] .int64] := by decide +kernel
+
+
+/-! ## ROUND 4 — VALUES of the legacy interface on (nested) product spaces
+
+`Model/UfuncValue.lean` models `ProductSpaceUfuncs.sum/prod/min/max` and the `(1,1)`, `(2,1)`
+wrappers of `wrap_ufunc_productspace` (ODL's own recursion over the parts) on trees of values,
+and the `out=` branch of the `(1,1)` wrapper on a heap of buffers.  NumPy's arithmetic at the
+leaves is a parameter (`op`, `f`), with exactly the algebraic laws NumPy's reductions assume.
+The driver executes these definitions (`psred`, `psmap`, `psbin`, `psinto`) and the stream
+`psvalue` compares them exactly with the real `px.ufuncs.<name>` on dyadic inputs. -/
+
+open OdlModel.UfuncValue
+
+/-- `px.ufuncs.sum()` / `.prod()` on ANY product-space element (any nesting depth, any number of
+parts incl. none, any leaf sizes incl. empty): the part-by-part recursion of
+`ProductSpaceUfuncs.sum` (`np.sum([x.ufuncs.sum() for x in self.elem])`) gives the fold of
+NumPy's binary operation over ALL values of the element in storage order — i.e. the same number
+as NumPy's reduction of the concatenated underlying arrays — provided the operation is
+associative with a two-sided identity (which is what NumPy's own pairwise reduction assumes;
+exact on the dyadic grid of the correspondence). -/
+theorem C17.psReduce_sum_prod_flatten {K : Type} (op : K → K → K) (e : K)
+    (assoc : ∀ a b c, op (op a b) c = op a (op b c)) (idl : ∀ a, op e a = a)
+    (idr : ∀ a, op a e = a) (t : PTree K) :
+    psReduce (foldId op e) t = foldId op e t.flatten := by
+  rw [psReduce_foldId op e assoc idl idr t]; rfl
+
+example : psReduce (foldId (· + ·) (0 : Int)) (.node [.node [.leaf [1, 2, 3], .leaf [4, 5]], .leaf [], .node []])
+    = some 15 := by decide
+
+/-- `px.ufuncs.min()` / `.max()`: when every leaf has at least one value and every product at
+least one part, the recursion of `ProductSpaceUfuncs.min/max` succeeds and gives NumPy's
+reduction (no identity: a left fold started at the first value) of ALL values — for every
+associative operation, every nesting depth and size. -/
+theorem C17.psReduce_min_max_flatten {K : Type} (op : K → K → K)
+    (assoc : ∀ a b c, op (op a b) c = op a (op b c)) (t : PTree K) (h : t.full = true) :
+    ∃ x, psReduce (fold1 op) t = some x ∧ fold1 op t.flatten = some x :=
+  psReduce_fold1 op assoc t h
+
+example : (PTree.node [.node [.leaf [3, 1], .leaf [4]], .leaf [1, 5]] : PTree Int).full = true ∧
+    psReduce (fold1 (fun a b : Int => min a b)) (.node [.node [.leaf [3, 1], .leaf [4]], .leaf [1, 5]])
+      = some 1 := by decide
+
+/-- … and it raises (NumPy's `ValueError: zero-size array to reduction operation`) EXACTLY when
+some leaf is empty or some product has no parts — even if other parts have values, where
+NumPy's `min` of the concatenated arrays would return a number (a deviation of the legacy
+interface that only empty parts can show). -/
+theorem C17.psReduce_min_max_raises_iff {K : Type} (op : K → K → K)
+    (assoc : ∀ a b c, op (op a b) c = op a (op b c)) (t : PTree K) :
+    psReduce (fold1 op) t = none ↔ t.full = false := by
+  constructor
+  · intro h
+    cases hf : t.full with
+    | false => rfl
+    | true =>
+      obtain ⟨x, hx, _⟩ := psReduce_fold1 op assoc t hf
+      rw [hx] at h; cases h
+  · exact psReduce_fold1_none op t
+
+example : psReduce (fold1 (fun a b : Int => min a b)) (.node [.leaf [3, 1], .leaf []]) = none ∧
+    fold1 (fun a b : Int => min a b) (PTree.node [.leaf [3, 1], .leaf []]).flatten = some 1 := by
+  decide
+
+/-- `px.ufuncs.<f>()` (one input, one output, no `out`): the values of the result, read in
+storage order, are NumPy's `f` applied to the values of the operand, and the result has the
+operand's structure — for every scalar function `f`, every nesting and size. -/
+theorem C17.psMap_flatten {K : Type} (f : K → K) (t : PTree K) :
+    (psMap f t).flatten = t.flatten.map f ∧ (psMap f t).sameShape t = true :=
+  ⟨psMap_flatten' f t, psMap_sameShape' f t⟩
+
+example : (psMap (fun a : Int => -a) (.node [.node [.leaf [1, 2], .leaf [3]], .leaf [4]])).flatten
+    = [-1, -2, -3, -4] := by decide
+
+/-- `px.ufuncs.<f>(x2)` with `x2` IN the space of `px` (same structure): the wrapper zips the
+parts at every level; the call succeeds, the result has the structure of `px`, and its values
+are NumPy's `op` applied position by position to the values of `px` and `x2`. -/
+theorem C17.psBin_same_space {K : Type} (op : K → K → K) (x y : PTree K)
+    (h : x.sameShape y = true) :
+    ∃ r, psBin op x (.elem y) = some r ∧
+      r.flatten = List.zipWith op x.flatten y.flatten ∧ r.sameShape x = true :=
+  psBin_zip' op x y h
+
+example : ∃ r, psBin (· + ·) (.node [.node [.leaf [1, 2], .leaf [3]], .leaf [4]])
+      (.elem (.node [.node [.leaf [10, 20], .leaf [30]], .leaf [40]])) = some r ∧
+    r.flatten = ([11, 22, 33, 44] : List Int) := ⟨_, rfl, by decide⟩
+
+/-- `px.ufuncs.<f>(c)` with a scalar `c`: `c in space` is false at every level, the same scalar
+is handed down to every part, and the result is the unary map `a ↦ op a c` — so by
+`C17.psMap_flatten` its values are NumPy's `op(values, c)`. Always succeeds. -/
+theorem C17.psBin_scalar {K : Type} (op : K → K → K) (c : K) (t : PTree K) :
+    psBin op t (.scalar c) = some (psMap (fun a => op a c) t) :=
+  psBin_scalar' op c t
+
+example : (psBin (· * ·) (.node [.leaf [1, 2], .node [.leaf [3]]]) (.scalar (2 : Int))).map PTree.flatten
+    = some [2, 4, 6] := by decide
+
+/-- FRAME of the `out=` branch (`for x, out_x in zip(self.elem, out): x.ufuncs.f(out=out_x)`):
+whatever the operand and `out` trees are (aliased, of different structure, `zip` truncating),
+if the call succeeds then no buffer is created or resized and every buffer that is NOT a leaf
+of `out` holds what it held before: the wrapper writes only into the outs, operands that are
+not themselves outs are untouched. -/
+theorem C17.psMapInto_frame {K : Type} (f : K → K) (x o : BTree) (h h' : Heap K)
+    (e : psMapInto f h x o = some h') :
+    h'.length = h.length ∧ ∀ k, k ∉ o.bufs → h'[k]? = h[k]? :=
+  psMapInto_frame' f x o h h' e
+
+/-- CONTENTS of `out`, disjoint case: `out` of the same structure as the operand, its buffers
+pairwise distinct and none of them a buffer of the operand. If the call succeeds, then
+afterwards `out` holds exactly `psMap f` of what the operand held before (by
+`C17.psMap_flatten`: NumPy's `f` of the operand's values) and the operand still holds what it
+held. -/
+theorem C17.psMapInto_out_contents {K : Type} (f : K → K) (x o : BTree) (h h' : Heap K)
+    (st : x.sameTree o = true) (nd : o.bufs.Nodup) (dj : ∀ k ∈ o.bufs, k ∉ x.bufs)
+    (e : psMapInto f h x o = some h') :
+    ∃ t, x.read h = some t ∧ o.read h' = some (psMap f t) ∧ x.read h' = some t := by
+  obtain ⟨t, h1, h2⟩ := psMapInto_disjoint' f x o h h' st nd dj e
+  refine ⟨t, h1, h2, ?_⟩
+  rw [← h1]
+  exact read_congr x h h' (fun k hk =>
+    (psMapInto_frame' f x o h h' e).2 k (fun hq => dj k hq hk))
+
+example : ∃ h', psMapInto (fun a : Int => -a) [[1, 2], [3], [0, 0], [0]]
+      (.node [.buf 0, .buf 1]) (.node [.buf 2, .buf 3]) = some h' ∧
+    h' = [[1, 2], [3], [-1, -2], [-3]] := ⟨_, rfl, by decide⟩
+
+/-- CONTENTS of `out`, in-place case `px.ufuncs.f(out=px)` (buffers of `px` pairwise distinct):
+if the call succeeds, `px` afterwards holds `psMap f` of what it held before. -/
+theorem C17.psMapInto_inplace_contents {K : Type} (f : K → K) (x : BTree) (h h' : Heap K)
+    (nd : x.bufs.Nodup) (e : psMapInto f h x x = some h') :
+    ∃ t, x.read h = some t ∧ x.read h' = some (psMap f t) :=
+  psMapInto_inplace' f x h h' nd e
+
+example : psMapInto (fun a : Int => a * a) [[1, 2], [3]] (.node [.buf 0, .node [.buf 1]])
+      (.node [.buf 0, .node [.buf 1]]) = some [[1, 4], [9]] := by decide
+
+/-- DEFECT C17-F14 on the model (the code as it exists): an `out` with a different number of
+parts is NOT rejected — `zip` stops at the shorter list. With more parts in `out` the call
+succeeds and returns an `out` whose trailing parts were never written; with fewer parts the
+results of the trailing operand parts are silently dropped. NumPy raises `ValueError`
+(operands could not be broadcast) for the underlying arrays in both cases. -/
+theorem C17.psMapInto_part_count_unchecked_fails :
+    (∃ h', psMapInto (fun a : Int => -a) [[1], [2], [7], [7], [7]]
+        (.node [.buf 0, .buf 1]) (.node [.buf 2, .buf 3, .buf 4]) = some h' ∧ h'[4]? = some [7]) ∧
+    (∃ h', psMapInto (fun a : Int => -a) [[1], [2], [7]]
+        (.node [.buf 0, .buf 1]) (.node [.buf 2]) = some h' ∧ h' = [[1], [2], [-1]]) :=
+  ⟨⟨_, rfl, by decide⟩, ⟨_, rfl, by decide⟩⟩
